@@ -95,3 +95,8 @@ package vm_context
 //@ func AccountVmContext.GetFrontierMomentum(self) -> (m, err)
 //@   ensures err == nil ==> m != nil && m.Timestamp != nil && timenano(m.Timestamp) / 1000000000 == self.now && m.Height == self.height
 //@   modifies nothing
+
+// ---- C16: applying a momentum hands EVERY content header to the store (ghost count of headers applied to a context) -----------
+//@ model MomentumVMContext applied int
+//@ func MomentumVMContext.AddAccountBlockTransaction(self, header, patch) -> (err)
+//@   ensures err == nil ==> self.applied == old(self.applied) + 1
